@@ -7,6 +7,7 @@ import YalafiVerif.Model.Tex2txt
 import YalafiVerif.Model.Shell
 import YalafiVerif.Model.Html
 import YalafiVerif.Model.ProtoChecks
+import YalafiVerif.Model.ProtoReports
 import YalafiVerif.Generated.Tables
 open Yalafi Yalafi.Proto
 open Yalafi.Html (generateHtml normContext firstRows)
@@ -215,6 +216,10 @@ def dispatch (op : String) : R (List String) :=
   | "SINGLE" => opSingle
   | "CONTEXT" => opContext
   | "INCLUDE" => opInclude
+  | "REPORTS" => opReports
+  | "LOCATE" => opLocate
+  | "NUMS" => opNums
+  | "TRANSNUM" => opTransNum
   | _ => throw s!"unknown op {op}"
 
 def handle (line : String) : String :=
